@@ -973,6 +973,16 @@ func c19RunFlip(c *fw.C, caseID string, size, part, rep int) {
 	}
 	dir := c.ScratchDir("c19flip")
 	defer os.RemoveAll(dir)
+	// half of the series works on a key file object that HAS been unlocked before (a wallet unlocks, something changes the
+	// object or a copy of it, it is unlocked again): whatever the object remembers from the first time must not
+	// outlive a change of ciphertext, nonce or salt
+	if (part+rep)%2 == 1 {
+		if d0 := c19Decrypt(kf, pw); !d0.ok() || !bytes.Equal(d0.ks.Entropy, entropy) {
+			c.Violation("roundtrip-decrypt-failed", c19Witness(kf, pw, entropy, map[string]interface{}{"outcome": d0.class(), "path": "first unlock before the flip series"}))
+			return
+		}
+		c.Count("flip_series_on_a_previously_unlocked_object", 1)
+	}
 	pos := 0
 	for _, f := range c19Fields {
 		nbits := len(f.get(kf)) * 8
